@@ -164,8 +164,9 @@ def install_calls():
     return orig_rate
 
 
-def install_tables():
+def install_tables(spec=None):
     import copy
+    fp = (spec or {}).get('failpoint')
     import hashlib
     import ssh_audit.ssh_audit as sa
     from ssh_audit.ssh2_kexdb import SSH2_KexDB
@@ -191,7 +192,14 @@ def install_tables():
         db = SSH2_KexDB.DB_PER_THREAD.get(tid)
         emit('table-at-entry', host=aconf.host, port=aconf.port, pristine=(db is None or db == snapshot), dirty=diff(db)[:20] if db is not None else [])
         try:
-            return inner(out, aconf, *a, **kw)
+            res = inner(out, aconf, *a, **kw)
+            if fp and aconf.port == fp.get('port'):
+                # source-free failpoint: the scan of this target ends in an exception after it has run (and annotated the tables), the way an unforeseen error inside the scan would
+                emit('failpoint', port=aconf.port, exc=fp.get('exc'))
+                if fp.get('exc') == 'SystemExit':
+                    raise SystemExit(3)
+                raise RuntimeError('injected by the monitor')
+            return res
         finally:
             db = SSH2_KexDB.DB_PER_THREAD.get(tid)
             emit('table-at-exit', host=aconf.host, port=aconf.port, dirty=diff(db)[:20] if db is not None else [])
@@ -282,7 +290,7 @@ def main():
     if 'calls' in mons:
         install_calls()
     if 'tables' in mons:
-        install_tables()
+        install_tables(spec)
     if 'switch' in mons:
         sys.setswitchinterval(1e-6)
 
